@@ -4,7 +4,7 @@ from __future__ import annotations
 import ast
 
 from .common import site_of
-from .flow import (helpers_of, both_answers, Oblig, calls, events, deps_of, arg_deps, SELF, P, facts_on_path, has_fact, check_escapes)
+from .flow import (facts_imply_nonempty, helpers_of, both_answers, Oblig, calls, events, deps_of, arg_deps, SELF, P, facts_on_path, has_fact, check_escapes)
 
 LL = "pyformlang.cfg.llone_parser.LLOneParser"
 EXPLANATION = (
@@ -63,11 +63,15 @@ def run(eng, rep, tier):
     if not missing:
         rep.holds("R6", "C14.1", fi.qname, "attribute-on-sentinel", "no attribute is read from a value that can be a "
                   "bare string sentinel")
-    pops = [ev for ev in summ.events if ev.kind == "write" and ev.wkind == "mutate:pop" and "word" in ev.site.text]
+    # the look-ahead: `<seq>[-1]` on a sequence that the same loop pops (whatever the local is called)
     looks = [ev for ev in summ.events if ev.kind == "subscript" and ev.args and ev.args[0].has_const() and
-             ev.args[0].const == -1 and ast.unparse(ev.node.value) == "word"]
-    unguarded = [ev for ev in looks if not (has_fact(ev.facts, "word", True) or has_fact(ev.facts, "len(word)", True)
-                                            or has_fact(ev.facts, "not word", False))]
+             ev.args[0].const == -1]
+    seqs = {ast.unparse(ev.node.value) for ev in looks}
+    pops = [ev for ev in summ.events if ev.kind == "write" and ev.wkind == "mutate:pop" and isinstance(ev.node, ast.Call)
+            and isinstance(ev.node.func, ast.Attribute) and ast.unparse(ev.node.func.value) in seqs]
+    popped = {ast.unparse(ev.node.func.value) for ev in pops}
+    looks = [ev for ev in looks if ast.unparse(ev.node.value) in popped]
+    unguarded = [ev for ev in looks if not facts_imply_nonempty(ev.facts, ast.unparse(ev.node.value))]
     pop_guarded = all(any("$" in f[0] for f in ev.facts) and False for ev in pops) if pops else True
     in_loop = bool(pops)
     ok = not (in_loop and unguarded)
@@ -88,7 +92,15 @@ def run(eng, rep, tier):
     st_ = interp.run_entry(ft, LL)
     firsts = [ev for ev, _ in calls(st_, "_get_first_set_production", own=True)]
     restricted = [ev for ev in firsts if any(isinstance(d, tuple) and d and d[0] == "NULLABLE" for d in arg_deps(ev, 0))]
-    ob.decide("R1", "C14.2", ft, "first-fill-range", bool(firsts) and not restricted,
+    # two different obligations, two different keys: a finding about the *range* of the fill must not hide a fill that no
+    # longer computes FIRST of the whole body
+    ob.decide("R1", "C14.2", ft, "first-of-whole-body", bool(firsts),
+              "predict symbols of a production come from FIRST of its whole body (the helper that walks the body while "
+              "its prefix is nullable)",
+              "the table no longer takes FIRST of the whole body of a production (only of its leading symbol, or of "
+              "nothing): a production whose leading variable is nullable gets the wrong predict symbols", st_,
+              site=site_of(prog, ft, ft.node))
+    ob.decide("R1", "C14.2", ft, "first-fill-range", not restricted,
               "the FIRST-based fill ranges over all productions",
               "the FIRST-based fill only ranges over productions selected by a nullability test: a nullable production "
               "with a non-empty body gets no FIRST entries", st_,
